@@ -473,3 +473,14 @@ Example C07_observer_nonvacuous :
   replay (reported (snd (fst r))) = [([98], (2, 2))] /\
   map abs_of (d_root (cs_db s)) = [[([98], (2, 2))]].
 Proof. exact observer_converges_nonvacuous. Qed.
+
+(* with the usage hypotheses discharged from the shape of the run (Table/ClientsRun6.v): only revision room remains *)
+From SV Require Import Table.ClientsRun6.
+Theorem C07_observer_run_converges : forall n cs s outs ops os wr,
+  forallb (cop_ok' n) cs = true -> crun (init_csys n 0) cs = (s, outs, ops) ->
+  cs_o s = Some os -> ov_phase os = OWait wr ->
+  room_run (init_db n) ops ->
+  exists cur, nth_error (d_root (cs_db s)) (ov_tab os) = Some cur /\ t_rev cur = wr /\
+              replay (reported outs) = abs_of cur.
+Proof. exact observer_converges'. Qed.
+Print Assumptions C07_observer_run_converges.
